@@ -1,0 +1,33 @@
+//! `Raft<T>` accessors for out-of-tree Kani harnesses (child module of `raft`, so it can reach the
+//! private queues). Compiled ONLY under `--cfg kani`. Thin wrappers, no logic.
+use super::Raft;
+use crate::InboundEvent;
+use crate::TypeConfig;
+
+impl<T: TypeConfig> Raft<T> {
+    /// Queue an inbound event exactly as `drain_inbound_events` does.
+    pub fn verif_push_inbound(
+        &mut self,
+        ev: InboundEvent,
+    ) {
+        self.buffered_inbound_event.push_back(ev);
+    }
+
+    pub fn verif_pop_inbound(&mut self) -> Option<InboundEvent> {
+        self.buffered_inbound_event.pop_front()
+    }
+
+    pub fn verif_inbound_len(&self) -> usize {
+        self.buffered_inbound_event.len()
+    }
+
+    /// The real `merge_append_entries` (private).
+    pub fn verif_merge_append_entries(&mut self) {
+        self.merge_append_entries()
+    }
+
+    /// The real `process_inbound_events` (private): merge + dispatch to the role state.
+    pub async fn verif_process_inbound_events(&mut self) -> crate::Result<()> {
+        self.process_inbound_events().await
+    }
+}
